@@ -8,7 +8,7 @@ from extract import c09_cmds
 from gen import exprgen
 from props.c12 import workdir
 
-THEOREMS = ["IgVerif.C09.c09_string_text_irrelevant", "IgVerif.C09.c09_comment_text_irrelevant", "IgVerif.C09.c09_endif_ends_group", "IgVerif.Skip.skipGroup_string", "IgVerif.Skip.skipC_clean",
+THEOREMS = ["IgVerif.C09.c09_string_text_irrelevant", "IgVerif.C09.c09_comment_text_irrelevant", "IgVerif.C09.c09_endif_ends_group", "IgVerif.C09.c09_else_and_midline_hash", "IgVerif.Skip.skipGroup_string", "IgVerif.Skip.skipC_clean",
             "IgVerif.C09.c09_refines", "IgVerif.C09.c09_skipped_no_effect", "IgVerif.C09.c09_after_taken_group", "IgVerif.C09.c09_undefined_is_zero",
             "IgVerif.C09.c09_extraction_ok", "IgVerif.C09.c09_active_dispatch", "IgVerif.C09.c09_skip_dispatch", "IgVerif.C09.c09_handlers",
             "IgVerif.Cond.run_refines"]
